@@ -521,6 +521,10 @@ def run(ctx):
     W = world()
     B = Batch(ctx)
     rng = ctx.rng
+    for d in W.meta.get('disagreements', []):
+        # the library's registry and the .tl text disagree about a constructor: the oracle below exercises it with values typed
+        # by the TEXT; if that finds no failing value the obligation (table = grammar) is still broken
+        ctx.corr_broken('registry vs TL grammar: ' + d)
     cov = [c for c in W.ctors if W.covered(c)]
     ctx.count('constructors_total', len(W.ctors))
     ctx.count('constructors_supported_field_types', sum(1 for c in W.ctors if W.supported(c)))
